@@ -3,6 +3,7 @@ import DyntplV.Esc.Url
 import DyntplV.Esc.Json
 import DyntplV.Esc.Html
 import DyntplV.Esc.Js
+import DyntplV.DriverR
 /-!
   Line-protocol driver: one request per line on stdin, one answer per line on stdout.
   Runs the *same* definitions the theorems are about.
@@ -68,7 +69,11 @@ def utf16ToCps : List Nat → List Nat
 
 /-- Answer one request line. -/
 def answer (line : String) : String :=
-  match (line.splitOn " ").filter (· ≠ "") with
+  let toks := (line.splitOn " ").filter (· ≠ "")
+  match DriverR.answer toks with
+  | some a => a
+  | none =>
+  match toks with
   -- url <itr> <in> <goOut> → <modelOut> <wellFormed goOut> <unescapeN goOut>
   | ["url", n, i, o] =>
     match n.toNat?, unhexStr i, unhexStr o with
